@@ -311,22 +311,10 @@ theorem slicesBound_of_ok_on {D : Type} [DecidableEq D] (H : HashFns D) (h : Has
               · exact ih rs mps _ (fun q hq => hwf q (by simp [hq])) (fun y hy => hVL y (Or.inr hy)) hl hb2
                   (fun p hp => ht p (by simp [hp])) (by simpa using h1) (by simpa using h2)
 
-/-! ### transitional corollaries (old names, contradictory hypothesis `HashOK`): kept only until `Props/C13.lean` is ported -/
-
-def NmtBindsWF (h : HashFn) (w : Nat) (sq all : List Bytes) : Prop := NmtBindsOn h (fun _ => True) w sq all
-
-theorem nmtBinds_of_eds {h : HashFn} (hk : HashOK h) {e : Eds} {k : Nat} (hsq : SquareShape e) (hw : e.width = 2 ^ k)
-    {dah : Dah} (hd : Dah.ofEds h e = .ok dah) : NmtBindsWF h e.width (rawSquare e) dah.allRootsBytes :=
-  nmtBinds_of_eds_on (S := fun _ => True) ⟨fun a b _ _ hab => hk.inj hab, hk.len⟩ hsq hw hd (fun _ _ => trivial)
-
-theorem slicesBound_of_ok' {D : Type} [DecidableEq D] (H : HashFns D) (h : HashFn) (w : Nat)
-    (sq all : List Bytes) (hn : NmtBindsWF h w sq all) (ns : Bytes) (hns : ns.length = 29)
-    (nps : List NsProof) (rs : List Bytes) (mps : List (Proof D)) (data : List Bytes)
-    (hwf : ∀ np ∈ nps, ∀ x ∈ np.siblings, x.WF) :
-    Lumina.Model.ShareProof.rangeLoop h ns data nps rs = .ok →
-    bindsAll H all rs (mps.map Lumina.Proofs.C13.obsOf) = true → (∀ p ∈ mps, p.total = all.length) →
-    nps.length = rs.length → rs.length = mps.length →
-    slicesBound w sq ns data (nps.map nobsOf) (mps.map Lumina.Proofs.C13.obsOf) = true :=
-  slicesBound_of_ok_on H h (fun _ => True) w sq all hn ns hns nps rs mps data hwf (fun _ _ => trivial)
+/-- **all inputs the NMT hash is applied to** when the DAH of `e` is computed and when `ShareProof::verify` checks the
+    range proofs `nps` of the share groups `data` under `ns`: the explicit finite set relative to which the share-proof
+    theorems of `Props/C13.lean` assume (or, in reduction form, conclude the failure of) collision-freeness -/
+def shareVerifyInputs (h : HashFn) (e : Eds) (ns : Bytes) (data : List Bytes) (nps : List NsProof) : List Bytes :=
+  edsInputs h e ++ shareLoopInputs h ns data nps
 
 end Lumina.Proofs.NmtMulti
